@@ -21,7 +21,7 @@ import (
 
 // Step is one action of a scripted exchange, in numbers relative to the two ISS.
 type Step struct {
-	Kind string     `json:"k"` // data, ack, write, read, wait, span (Off = generator's next in-order byte, Len = bytes behind the left edge, Ms = bytes beyond the right edge)
+	Kind string     `json:"k"` // data, ack, write, read, wait, pmtu (Len = next-hop MTU), span (Off = generator's next in-order byte, Len = bytes behind the left edge, Ms = bytes beyond the right edge)
 	Off  int64      `json:"off,omitempty"`
 	Len  int        `json:"len,omitempty"`
 	Ack  int64      `json:"ack,omitempty"`
@@ -50,8 +50,15 @@ func Gen(seed int64, label string, k int) Script {
 	sc := Script{K: k, Active: r.Chance(1, 3), TS: r.Bool(), SACK: r.Bool()}
 	var peerNext int64 // next in-order byte of the peer
 	var written int64
+	pmtu := false
 	for i := 0; i < 12+r.Intn(30); i++ {
-		switch r.Intn(9) {
+		switch r.Intn(10) {
+		case 9: // a router on the path reports a smaller MTU: what is outstanding no longer fits
+			if written == 0 || pmtu {
+				continue
+			}
+			pmtu = true
+			sc.Steps = append(sc.Steps, Step{Kind: "pmtu", Len: []int{576, 800, 300, 1006}[r.Intn(4)]})
 		case 0, 1: // in-order peer data
 			n := 1 + r.Intn(700)
 			sc.Steps = append(sc.Steps, Step{Kind: "data", Off: peerNext, Len: n})
@@ -199,6 +206,8 @@ func Play(sc Script, ownISS, peerISS uint32) ([]string, string) {
 			if e := st.Off + int64(st.Len); st.Off <= genNext && e > genNext {
 				genNext = e
 			}
+		case "pmtu":
+			conn.FragNeeded(lastAck, st.Len, uint16(len(out)))
 		case "span":
 			start, end := nearAck-int64(st.Len), lastEdge+int64(st.Ms)
 			if start < 0 {
